@@ -1,8 +1,8 @@
 #!/usr/bin/env python3
-def cfg(name, inst="{a, b}", sh="{1}", claims=2, dup=0, snap=0, leave="FALSE", release="FALSE", tsfix="TRUE", invs="SingleNewestOwner", depth=None, late="{}", needknown="FALSE"):
+def cfg(name, inst="{a, b}", sh="{1}", claims=2, dup=0, snap=0, leave="FALSE", release="FALSE", tsfix="TRUE", invs="SingleNewestOwner", depth=None, late="{}", needknown="FALSE", split="FALSE", guarded="TRUE"):
     out = "INIT SimInit\nNEXT SimNext\n" if depth else "SPECIFICATION Spec\n"
-    out += "CONSTANTS\n  Inst = %s\n  Sh = %s\n  MaxClaims = %d\n  MaxDup = %d\n  MaxSnap = %d\n  AllowLeave = %s\n  AllowRelease = %s\n  TsFix = %s\n  Late = %s\n  NeedKnown = %s\n" % (
-        inst, sh, claims, dup, snap, leave, release, tsfix, late, needknown)
+    out += "CONSTANTS\n  Inst = %s\n  Sh = %s\n  MaxClaims = %d\n  MaxDup = %d\n  MaxSnap = %d\n  AllowLeave = %s\n  AllowRelease = %s\n  TsFix = %s\n  Late = %s\n  NeedKnown = %s\n  SplitDeliver = %s\n  GuardedEvict = %s\n" % (
+        inst, sh, claims, dup, snap, leave, release, tsfix, late, needknown, split, guarded)
     if depth:
         out += "  Depth = %d\n" % depth
     else:
@@ -25,3 +25,8 @@ cfg("g_join3", inst="{a, b, c}", claims=3, dup=0, snap=0, late="{a}")
 cfg("sim_gj", inst="{a, b}", sh="{1}", claims=3, dup=1, snap=1, leave="FALSE", release="TRUE", depth=16, late="{a}")
 cfg("sim_gj3", inst="{a, b, c}", sh="{1, 2}", claims=4, dup=1, snap=1, leave="FALSE", release="TRUE", depth=22, late="{a}")
 cfg("g_join2_needknown", claims=3, dup=1, snap=1, release="TRUE", late="{a}", needknown="TRUE")   # expected to violate
+# NotifyMsg in two halves (read the local entry / act on the snapshot): a re-claim may land in between
+cfg("g_split2", claims=3, dup=1, release="TRUE", split="TRUE")
+cfg("g_split3", inst="{a, b, c}", claims=3, dup=0, split="TRUE")
+cfg("sim_gs", inst="{a, b}", sh="{1}", claims=4, dup=1, snap=1, leave="FALSE", release="TRUE", depth=18, split="TRUE")
+cfg("g_split2_unguarded", claims=3, dup=1, release="TRUE", split="TRUE", guarded="FALSE")   # expected to violate
